@@ -294,7 +294,10 @@ def mpc_pow_int(z, n, prec, rnd=round_fast):
         re = from_man_exp(re, int(n*aexp), prec, rnd)
         im = from_man_exp(im, int(n*bexp), prec, rnd)
         return re, im
-    return mpc_exp(mpc_mul_int(mpc_log(z, prec+10), n, prec+10), prec, rnd)
+    # The absolute error of n*log(z) is the relative error of the result:
+    # add guard bits for the size of n and of log(z)
+    wp = prec + 10 + bitcount(n) + bitcount(abs(aexp+abc)) + bitcount(abs(bexp+bbc))
+    return mpc_exp(mpc_mul_int(mpc_log(z, wp), n, wp), prec, rnd)
 
 def mpc_sqrt(z, prec, rnd=round_fast):
     """Complex square root (principal branch).
